@@ -686,6 +686,14 @@ class Walker:
                 s = as_str(recv)
                 if fname in ('strip', 'lstrip', 'rstrip') and not argv:
                     return self.strip(s)
+                if fname in ('strip', 'lstrip', 'rstrip') and len(e.args) == 1:
+                    a0 = e.args[0]
+                    if isinstance(a0, ast.Constant) and isinstance(a0.value, str) and a0.value and not a0.value.strip():
+                        return self.strip(s)            # strip(' \t'): whitespace only, same as strip()
+                    if isinstance(a0, ast.Constant) and isinstance(a0.value, str) and a0.value \
+                            and s.kind in ('slice', 'otext', 'group', 'concat', 'xform'):
+                        # trimming non-blank characters changes what the text says: not the slice [start, start+length) any more
+                        return SStr('xform', base=s, value='%s(%r)' % (fname, a0.value))
                 if fname in ('lower', 'upper', 'casefold') and not argv:
                     return s
                 if fname in ('index', 'find', 'rfind', 'rindex') and argv:
